@@ -1114,7 +1114,14 @@ class _Simu(_IObserver, _params.Updatable, ABC):
         inv = np.searchsorted(canon, rows.astype(np.int64) * ncol + cols).astype(
             np.int32
         )
-        return inv, matrix.indices, matrix.indptr, matrix.nnz
+        # The pattern arrays are shared (not copied) by every matrix assembled from this map: make them
+        # read-only so that an in-place structural operation on one returned matrix (eliminate_zeros,
+        # writes into .indices/.indptr, ...) raises instead of silently corrupting its siblings, the
+        # cached map and every later assembly.
+        indices, indptr = matrix.indices, matrix.indptr
+        for arr in (inv, indices, indptr):
+            arr.flags.writeable = False
+        return inv, indices, indptr, matrix.nnz
 
     def Assembly(
         self, problemType: ProblemType
